@@ -136,6 +136,10 @@ func (c *collection) deleteIndexedDocWithID(
 	if err != nil {
 		return err
 	}
+	if doc == nil {
+		// The document doesn't exist, is already deleted or can't be read, there is nothing to remove.
+		return nil
+	}
 	return c.deleteIndexedDoc(ctx, doc)
 }
 
